@@ -10,6 +10,8 @@ import (
 	"encoding/binary"
 	"errors"
 	"io"
+	"os"
+	"runtime"
 )
 
 // PRG returns n deterministic pseudo-random bytes for a seed (SHA-256 in
@@ -95,6 +97,29 @@ func NewReader(data []byte, d Delivery) (io.Reader, *SchedReader) {
 			n = 16
 		}
 		return bufio.NewReaderSize(s, n), s
+	case "ospipe":
+		// the read end of an operating-system pipe: an *os.File that has a Seek method which fails
+		r, w, err := os.Pipe()
+		if err != nil {
+			return bytes.NewReader(data), nil
+		}
+		go func() {
+			w.Write(data)
+			w.Close()
+		}()
+		runtime.SetFinalizer(r, func(f *os.File) { f.Close() })
+		return r, nil
+	case "file":
+		// a regular file, opened for reading (seekable)
+		f, err := os.CreateTemp("", "hx-src-")
+		if err != nil {
+			return bytes.NewReader(data), nil
+		}
+		os.Remove(f.Name())
+		f.Write(data)
+		f.Seek(0, io.SeekStart)
+		runtime.SetFinalizer(f, func(f *os.File) { f.Close() })
+		return f, nil
 	default:
 		return bytes.NewReader(data), nil
 	}
